@@ -1,6 +1,7 @@
 package rules
 
 import (
+	"go/types"
 	"fmt"
 	"go/token"
 	"strings"
@@ -338,19 +339,22 @@ func outOfAmmoGlobal(c *Ctx) *ssa.Global {
 		return nil
 	}
 	var g *ssa.Global
-	EachInstr(aw, func(in ssa.Instruction) {
-		b, ok := in.(*ssa.BinOp)
-		if !ok || (b.Op != token.EQL && b.Op != token.NEQ) {
-			return
-		}
-		for _, side := range []ssa.Value{b.X, b.Y} {
-			if u, ok := side.(*ssa.UnOp); ok && u.Op == token.MUL {
-				if gl, ok := u.X.(*ssa.Global); ok && gl.Pkg == aw.Pkg {
-					g = gl
+	// ... in awaitRun itself or in a helper it calls
+	for _, f := range FindFuncs(aw, 3, func(*ssa.Function) bool { return true }) {
+		EachInstr(f, func(in ssa.Instruction) {
+			b, ok := in.(*ssa.BinOp)
+			if !ok || (b.Op != token.EQL && b.Op != token.NEQ) {
+				return
+			}
+			for _, side := range []ssa.Value{b.X, b.Y} {
+				if u, ok := side.(*ssa.UnOp); ok && u.Op == token.MUL {
+					if gl, ok := u.X.(*ssa.Global); ok && gl.Pkg == aw.Pkg && types.Identical(gl.Type().(*types.Pointer).Elem(), types.Universe.Lookup("error").Type()) {
+						g = gl
+					}
 				}
 			}
-		}
-	})
+		})
+	}
 	if g == nil {
 		c.Anchor("O3.1", "the out-of-ammo sentinel compared in awaitRun")
 	}
